@@ -28,6 +28,11 @@ pub fn setup(prop: &str, tier: &str, variant: u64) -> Setup {
         "C01" => {
             m.prop = "C01";
             m.c01 = true;
+            // a fifth of the histories with undo managers: undo / redo transactions are edits like any other for convergence
+            if variant % 5 == 2 {
+                m.undo = true;
+                p.w_undo = 3;
+            }
         }
         "C02" => {
             m.prop = "C02";
@@ -72,6 +77,11 @@ pub fn setup(prop: &str, tier: &str, variant: u64) -> Setup {
             m.prop = "C07";
             m.c07 = true;
             p.w_gc = 3;
+            // undo / redo transactions of the leader are transactions like any other (every third history)
+            if variant % 3 == 1 {
+                m.undo = true;
+                p.w_undo = 4;
+            }
         }
         "C08" => {
             m.prop = "C08";
